@@ -4,6 +4,7 @@ import (
 	"fmt"
 	"os"
 	"sort"
+	"sync/atomic"
 	"runtime"
 	"runtime/debug"
 	"go/constant"
@@ -45,6 +46,7 @@ type Interp struct {
 	steps   int
 	assertQ int
 	cfg     *RunCfg
+	expired *int32
 	tags    []string
 	fnSteps map[*ssa.Function]int
 	pc      []string
@@ -517,6 +519,9 @@ func (it *Interp) execBlock(fr *frame, b, prev *ssa.BasicBlock) (res blockResult
 		if it.steps > it.cfg.StepLimit {
 			panic(pathEnd{"step limit"})
 		}
+		if it.steps&1023 == 0 && it.expired != nil && atomic.LoadInt32(it.expired) == 1 {
+			panic(pathEnd{"wall limit"})
+		}
 		if pos := ins.Pos(); pos.IsValid() {
 			pp := it.prog.Fset.Position(pos)
 			if strings.HasPrefix(pp.Filename, "/repo/") && !strings.Contains(pp.Filename, "zz_verif") {
@@ -720,10 +725,21 @@ func (it *Interp) builtin(fr *frame, name string, args []Value) Value {
 				return int64(0)
 			}
 			return int64(len(x.keys))
+		case *ChanV:
+			if x == nil {
+				return int64(0)
+			}
+			return int64(len(x.buf))
 		}
 	case "cap":
 		if x, ok := args[0].(SliceV); ok {
 			return int64(x.cp)
+		}
+		if x, ok := args[0].(*ChanV); ok {
+			if x == nil {
+				return int64(0)
+			}
+			return int64(x.cap)
 		}
 	case "append":
 		return it.appendSlice(args[0].(SliceV), args[1])
